@@ -67,7 +67,8 @@ class C16(PropertyCheck):
     assumptions = ["A-codec: file names are Shift-JIS strings encoding_rs converts losslessly (the model's raw names are decoded with the "
                    "library's own decoder before comparing)",
                    "A-std: HashMap (compared sorted), Vec",
-                   "byte level: C16 theorems are stated for the archive BinArchive::from_bytes returns (C01 parser correctness is the premise)"]
+                   "byte level: C16_extract_from_file / C16_file_no_count / C16_file_no_info quantify over every byte string that conforms to C01's "
+                   "format relation (Proofs/BinFormatSpec.v) with an arc-shaped content; no premise about BinArchive::from_bytes is left"]
 
     def generate(self, rng, tier):
         cases = []
@@ -188,7 +189,8 @@ MANIFEST = dict(
          "no panic and no fuel exhaustion on ANY archive in both arithmetic modes. Model tied to /repo on every run by the extracted model vs "
          "the real library on images from a Python arc writer with layout knobs and error variants (debug and release), results compared as "
          "sorted maps with the file set the image was built from.",
-    note=TB + "The theorems speak about the archive BinArchive::from_bytes returns (byte level = C01 parser correctness, premise `from_bytes LE f = Ok a`). "
+    note=TB + "Byte level: C16_extract_from_file (every file conforming to C01's format relation with an arc-shaped content is extracted exactly; "
+              "proved from C01's parser correctness, Proofs/TextBinBridge.v + ArcBytes.v); the other theorems speak about the parsed archive. "
               "Modelled, not verified: HashMap, Vec (A-std), encoding_rs for names (A-codec). Repaired defect: F9 bc4a741.",
     technique="Coq proof (induction over the record list with the cursor invariant pos = info + 16 i; block-read lemma) + extracted-model differential check",
     ref="DESIGN.md section 6 (C16)")
